@@ -1046,7 +1046,6 @@ func (e *Engine) dropDetached(op *Op) error {
 	return e.dispose(atree.SlabIDStorable(d.Root))
 }
 
-
 func rootOf(n *Node) *Node {
 	for n.Parent != nil {
 		n = n.Parent
@@ -1105,7 +1104,6 @@ func (e *Engine) withIsolation(n *Node, f func() error) error {
 	e.Stats.label("isolation_checked")
 	return nil
 }
-
 
 // rejectedOp: requests that must be refused because of their arguments (C18).
 func (e *Engine) rejectedOp(op *Op) error {
@@ -1227,7 +1225,6 @@ func (e *Engine) rejectedOp(op *Op) error {
 	}
 	return nil
 }
-
 
 // childInlined reports whether nested container c is currently inlined (through its designated handle).
 func childInlined(c *Node) bool {
